@@ -575,7 +575,29 @@ def check_acc_contract(ctx, R):
 def agg_classes(model):
     m = model.module(AGG)
     base = m.classes.get('Aggregation')
-    return [c for c in m.classes.values() if base in c.mro and c is not base and c.name != 'GroupbyAggregation']
+    # (a private helper base such as `_GroupbyTally` is code shared by its subclasses - analysed there, where its hooks resolve)
+    return [c for c in m.classes.values() if base in c.mro and c is not base and c.name != 'GroupbyAggregation'
+            and c not in getattr(model, 'private_bases', ())]
+
+
+def _incoming_empty(r, accp):
+    """the path established that (a component of) the incoming state holds no rows: len(<state>) false, `not len(<state>)`,
+    len(<state>) == 0 or <state>.empty true"""
+    import re
+    from .delivery import _conjuncts
+    from ..symexpr import norm_cond
+    for t, o in r.conds:
+        if t.startswith('<'):
+            continue
+        for t1, o1 in _conjuncts(*norm_cond(t, o)):
+            t2, o2 = norm_cond(t1, o1)
+            k = t2.replace(' ', '')
+            if not re.search(r'(?<![A-Za-z0-9_])' + re.escape(accp) + r'(?![A-Za-z0-9_])', k):
+                continue
+            if (re.fullmatch(r'len\(.*\)', k) and o2 is False) or (re.fullmatch(r'len\(.*\)==0', k) and o2 is True) \
+                    or (k.endswith('.empty') and o2 is True) or (re.fullmatch(r'len\(.*\)>0', k) and o2 is False):
+                return True
+    return False
 
 
 def check_fold_derive(ctx, R, steps=('on_new',)):
@@ -609,6 +631,8 @@ def check_fold_derive(ctx, R, steps=('on_new',)):
                         bad, detail = r, 'state component %d is the constant %s' % (i, src(c))
                         continue
                     if not any(isinstance(x, ast.Name) and x.id == accp for x in ast.walk(c)):
+                        if _incoming_empty(r, accp):
+                            continue        # re-seeding a carried state that was found empty (what initial() does)
                         conds = ' & '.join('%s=%s' % (c_, o) for c_, o in r.conds)
                         bad, detail = r, 'state component %d (%s) does not derive from the incoming state on the path [%s]: a ' \
                                          'constant or batch-only value is injected into the state' % (i, src(c)[:80], conds[:200])
@@ -850,6 +874,10 @@ def check_accrue_decay(ctx, R):
                     zc = r.calls[int(m_)][0]
                     if isinstance(zc, ast.Call) and nf(zc.func) == 'zip' and zc.args and nf(zc.args[0]) == D + '[1]':
                         return 'FIRST(ELEM(%s))' % it, 'ELEM(%s)[1]' % it
+                    # for o in filter(len, old): exactly the non-empty decayed chunks
+                    if isinstance(zc, ast.Call) and nf(zc.func) == 'filter' and len(zc.args) == 2 and nf(zc.args[0]) == 'len' \
+                            and nf(zc.args[1]) == D + '[1]':
+                        return 'ELEM(%s)' % it, None
                 return None
             for who, key in (('agg', 'state'),) + (((None, 'size-state'),) if twin else ()):
                 def mine(c, meth):
@@ -1242,12 +1270,27 @@ def check_decay_conserves(ctx, R):
                     if 'C%d' % k in dec:
                         continue
                     empty = False
+
+                    def spent(T):
+                        # the frame itself, or the tail of it that is left once a head handed to the decayed list is cut off
+                        if T == X:
+                            return True
+                        m1_ = re.fullmatch(re.escape(X) + r'(\.iloc)?\[(.+):\]', T)
+                        if not m1_:
+                            return False
+                        via_, K_ = m1_.group(1) or '', m1_.group(2)
+                        heads_ = {X + via_ + '[:%s]' % K_}
+                        mk_ = re.fullmatch(r'C(\d+)', K_)
+                        if mk_:
+                            m2_ = re.fullmatch(r'len\((.+)\)', nf(r.calls[int(mk_.group(1))][0]))
+                            if m2_ and m2_.group(1).startswith(X):
+                                heads_.add(m2_.group(1))
+                        return bool(heads_ & set(dec))
                     for ct, o in r.conds:
                         t = _expand(r, ct, 1).replace(' ', '')
-                        if t in ('notlen(%s)' % X, 'len(%s)==0' % X) and o:
-                            empty = True
-                        if t in ('len(%s)' % X, 'len(%s)>0' % X) and not o:
-                            empty = True
+                        for pre, suf, want in (('notlen(', ')', True), ('len(', ')==0', True), ('len(', ')', False), ('len(', ')>0', False)):
+                            if t.startswith(pre) and t.endswith(suf) and o is want and spent(t[len(pre):len(t) - len(suf)]):
+                                empty = True
                     if not empty:
                         bad_pop = bad_pop or 'a frame is popped from the history without being handed to the decayed list'
         R.ob('DECAY-CONSERVES', con, 'split-complementary', bad_split is None and (n_split > 0 or name == 'diff_expanding'),
@@ -1614,3 +1657,34 @@ def check_ewm_rows(ctx, R):
             bad = ('the batch is processed row by row but the emitted result is the value carried to the next batch (one row): '
                    'for a batch of k rows, k-1 rows of what pandas.ewm().mean() returns are never emitted')
     R.ob('EWM-ROWS', con, 'one-row-per-row', bad is None and n > 0, bad or '', ctx.where(fn, fn.node.lineno), None, n)
+    # the first-batch marker: initial() hands out (first row, weight, True) - "the first row of the next batch is already in the
+    # mean". If the batch it was built from was empty there is no such row, so the marker may be cleared only on a path that
+    # looked whether a row exists (a test on the size of the batch or of the carried result); clearing it blindly leaves an
+    # empty seed behind for ever
+    ini = cls.find('initial')
+    marker = None
+    if ini is not None:
+        for r in [x for x in SymEval(M, cls).run(ini) if not x.raised and x.ret is not None]:
+            if isinstance(r.ret, ast.Tuple):
+                for i, e in enumerate(r.ret.elts):
+                    if isinstance(e, ast.Constant) and e.value is True:
+                        marker = i
+    if marker is None:
+        R.note('EWM-ROWS: EWMean.initial() hands out no first-batch marker (no constant True component); marker clause not applicable')
+        return
+    bad, n = None, 0
+    for r in [x for x in SymEval(M, cls, name_calls=True).run(fn) if not x.raised and x.ret is not None]:
+        st_ = r.ret.elts[0]
+        comps = st_.elts if isinstance(st_, ast.Tuple) else [st_]
+        if marker >= len(comps):
+            continue
+        n += 1
+        m = comps[marker]
+        if isinstance(m, ast.Constant) and m.value is False:
+            looked = any(('len(' in _expand(r, c.replace(' ', ''), 2) and 'range(' not in _expand(r, c.replace(' ', ''), 2))
+                         or '.empty' in _expand(r, c.replace(' ', ''), 2) for c, o in r.conds if not c.startswith('<'))
+            if not looked:
+                bad = ('on_new clears the first-batch marker without ever testing whether a row exists: when the aggregation was '
+                       'initialised from an empty batch (initial() keeps new.iloc[:1], i.e. nothing) the seed stays empty for ever '
+                       'and every later result is empty')
+    R.ob('EWM-ROWS', con, 'first-marker-needs-a-row', bad is None and n > 0, bad or '', ctx.where(fn, fn.node.lineno), None, n)
